@@ -233,9 +233,8 @@ Lemma respond_dc j k last maxre s : Inv s ->
 Proof. intros HI. unfold respond. destruct (find _ _) as [v|]; [|apply dc_same; [reflexivity|reflexivity|apply nodrop_nil]].
   pose proof (send_message_dc (Resp j k) (v_remote v) (if v_mtype v =? 1 then 7 else 8) 69 (v_tok v) maxre s HI) as D.
   destruct (C14refuse.send_message l _ _ _ _ _ _ s) as [s1 o1]. cbn [fst snd] in D.
-  destruct last; destruct (alive k s1) eqn:E; cbn [fst snd]; try exact D.
-  - pose proof (stop_responder_dc k s1) as D2. destruct (stop_responder k s1) as [s2 o2]. apply (dc_trans s o1 s1); assumption.
-  - apply (dc_trans s o1 s1 [Crash TypeError] s1); [exact D|apply dc_same; [reflexivity|reflexivity|apply nodrop_one; discriminate]]. Qed.
+  destruct last; [|exact D]. destruct (alive k s1) eqn:E; cbn [fst snd]; [|exact D].
+  pose proof (stop_responder_dc k s1) as D2. destruct (stop_responder k s1) as [s2 o2]. apply (dc_trans s o1 s1); assumption. Qed.
 
 (* one event, whatever the transport refuses: a message is discarded only if afterwards neither a request to its remote is
    outstanding nor a responder for its remote alive; only TokenManager.request adds an outstanding request, only
